@@ -104,7 +104,7 @@ Definition index (coll key : val) : val * list diag :=
   else
   let ty := type_of coll in
   let kty := type_of key in
-  if ty_eqb kty TDyn || ty_eqb ty TDyn then (with_same_marks dyn_val coll, [])
+  if ty_eqb kty TDyn || ty_eqb ty TDyn then (with_same_marks (with_same_marks dyn_val coll) key, [])
   else
   match ty with
   | TList _ | TTuple _ | TMap _ =>
@@ -574,7 +574,10 @@ Fixpoint eval_with (idx : val -> val -> val * list diag)
           | CUnsupported => (VUnk rt rf_none, cds ++ [dunsupported])
           | CErr _ => (VUnk rt rf_none, cds ++ [derr S_IncorrectCondType []])
           | COk cb =>
-              let pick (bv : val) (bds : list diag) (needconv : bool) :=
+              (* the unselected result's type took part in choosing rt: the marks anywhere inside it
+                 are kept although its value is discarded (fix a618c7a) *)
+              let pick (bv : val) (bds : list diag) (needconv : bool) (other : val) :=
+                let mk := marks_union mk (deep_marks other) in
                 if needconv then
                   match conv bv rt with
                   | COk r => (with_marks r mk, cds ++ bds)
@@ -583,8 +586,8 @@ Fixpoint eval_with (idx : val -> val -> val * list diag)
                   end
                 else (with_marks bv mk, cds ++ bds) in
               match cb with
-              | VBool true => pick tu tds tconv
-              | VBool false => pick fu fds fconv
+              | VBool true => pick tu tds tconv fu
+              | VBool false => pick fu fds fconv tu
               | _ => (dyn_val, cds ++ [dunsupported])
               end
           end
@@ -656,7 +659,8 @@ Fixpoint eval_with (idx : val -> val -> val * list diag)
       | (None, true) => (dyn_val, [derr S_UnknownFunc [FStr name []]])
       | (Some fnv, _) =>
           (* argument expansion *)
-          let expanded : (list expr * list diag) + (val * list diag) :=
+          (* third component: marks of an EMPTY expansion collection, applied to the result (fix 663246c) *)
+          let expanded : (list expr * list diag * marks) + (val * list diag) :=
             if expand then
               match rev args with
               | [] => inr (dyn_val, [dunsupported])     (* Go panics; the parser never builds this *)
@@ -671,14 +675,15 @@ Fixpoint eval_with (idx : val -> val -> val * list diag)
                       else if negb (is_known xv) then inr (with_same_marks dyn_val xv, xds)
                       else
                       let '(xu, xm) := unmark xv in
-                      inl (rev init_rev ++ map (fun kv => ELit (with_marks (snd kv) xm)) (elements xu), xds)
+                      inl (rev init_rev ++ map (fun kv => ELit (with_marks (snd kv) xm)) (elements xu), xds,
+                           match elements xu with [] => xm | _ => [] end)
                   | _ => inr (dyn_val, xds ++ [derr S_InvalidExpand []])
                   end
               end
-            else inl (args, []) in
+            else inl (args, [], []) in
           match expanded with
           | inr r => r
-          | inl (args', ds0) =>
+          | inl (args', ds0, emk) =>
               let np := length (f_params fnv) in
               if (length args' <? np)%nat then (dyn_val, [derr S_NotEnoughArgs [FStr name []]])
               else if (match f_varparam fnv with None => true | Some _ => false end) && (np <? length args')%nat
@@ -701,7 +706,7 @@ Fixpoint eval_with (idx : val -> val -> val * list diag)
               if has_errors ds then (dyn_val, ds)
               else if has_unsupported ds then (dyn_val, ds)
               else match fn_call fnv argvals with
-                   | CallOk v => (v, ds)
+                   | CallOk v => (with_marks v emk, ds)
                    | CallArgErr i => (dyn_val, ds ++ [derr S_InvalidFuncArg []])
                    | CallErr => (dyn_val, ds ++ [derr S_ErrorInCall [FStr name []]])
                    | CallUnsupported => (dyn_val, ds ++ [dunsupported])
